@@ -5,7 +5,7 @@
     shapes of the harness x every subset of set fields (representative
     values), and tied to the library for random values by correspondence. *)
 From Coq Require Import String ZArith.
-From PSA Require Import Base Lines Cbor Wire Embedded RunEmb EmbeddedProofs.
+From PSA Require Import Base Lines Cbor Wire Embedded RunEmb EmbeddedProofs EmbeddedRoundtrip EmbeddedFlat.
 Open Scope N_scope.
 
 Theorem C15_header_correct : forall n : N, n < 2 ^ 32 -> map_header n = head 5 n.
@@ -35,3 +35,17 @@ Theorem C15_duplicate_and_missing_are_errors :
   from_cbor [xa2; x01; x02; x01; x03] = None.
 Proof. exact duplicate_and_missing_are_errors. Qed.
 Print Assumptions C15_duplicate_and_missing_are_errors.
+
+(** the reader inverts the writer: every map of scalar values, distinct int64 keys, fewer than 2^32 entries *)
+Theorem C15_reader_inverts_writer : forall l : list (Z * cbor),
+  pairs_ok l -> N.of_nat (length l) < 2 ^ 32 ->
+  from_cbor (to_cbor (map (fun kv => (fst kv, enc (snd kv))) l)) = Some (map (fun kv => (fst kv, enc (snd kv))) l).
+Proof. exact from_cbor_to_cbor. Qed.
+Print Assumptions C15_reader_inverts_writer.
+
+(** structs without embedding: populate (serialize s) = s for every shape and every well-typed value assignment *)
+Theorem C15_flat_struct_roundtrip : forall its : list item,
+  Forall flat_item its -> Forall item_ok its -> NoDup (keys_of its) -> N.of_nat (length its) < 2 ^ 32 ->
+  exists b, serialize its = Some b /\ populate b (map clear_item its) = Some its.
+Proof. exact flat_struct_roundtrip. Qed.
+Print Assumptions C15_flat_struct_roundtrip.
